@@ -310,7 +310,8 @@ pub(crate) fn quote<'a>(s: &'a str, options: &QuoteOptions) -> Cow<'a, str> {
         && (options.always_quote
             || s.is_empty()
             || s.contains(needs_escaping)
-            || s.starts_with(needs_escaping_at_start));
+            || s.starts_with(needs_escaping_at_start)
+            || has_expandable_inner_tilde(s));
 
     if !use_default_quotes {
         return s.into();
@@ -359,15 +360,23 @@ fn backslash_escape(s: &str) -> Cow<'_, str> {
     if s.is_empty() {
         // An empty string must be represented as '' to be a valid shell word.
         Cow::Owned("''".to_string())
-    } else if !s.chars().any(needs_escaping) && !s.starts_with(needs_escaping_at_start) {
+    } else if !s.chars().any(needs_escaping)
+        && !s.starts_with(needs_escaping_at_start)
+        && !has_expandable_inner_tilde(s)
+    {
         Cow::Borrowed(s)
     } else {
         let mut output = String::with_capacity(s.len());
+        let mut prev = None;
         for (i, c) in s.chars().enumerate() {
-            if needs_escaping(c) || (i == 0 && needs_escaping_at_start(c)) {
+            if needs_escaping(c)
+                || (i == 0 && needs_escaping_at_start(c))
+                || (c == '~' && matches!(prev, Some(':' | '=')))
+            {
                 output.push('\\');
             }
             output.push(c);
+            prev = Some(c);
         }
         Cow::Owned(output)
     }
@@ -482,6 +491,12 @@ const fn needs_escaping(c: char) -> bool {
 // first character of a word: a tilde would be expanded, a hash sign would start a comment.
 const fn needs_escaping_at_start(c: char) -> bool {
     matches!(c, '~' | '#')
+}
+
+// Returns whether the string has a tilde that would be expanded when the string is read
+// back as the value of an assignment: one that follows a colon or an equals sign.
+fn has_expandable_inner_tilde(s: &str) -> bool {
+    s.contains(":~") || s.contains("=~")
 }
 
 const fn needs_ansi_c_quoting(c: char) -> bool {
